@@ -373,6 +373,26 @@ func checkC10(c *Ctx) {
 				}
 			}
 			if !configured {
+				// unfiltered handler: both lists must have been found empty on this path
+				if strings.Contains(d, "NewServeMux") {
+					emptyA, emptyD := false, false
+					for _, it := range t.Items {
+						if _, isIf := it.Instr.(*ssa.If); isIf {
+							rel := c.condRel(it)
+							if rel.Y == "" && rel.Pred == "" && !rel.Neq && rel.Hi <= 0 {
+								if strings.Contains(rel.X, "len(fld:config.AdminAPIConfig.IPAllowList)") {
+									emptyA = true
+								}
+								if strings.Contains(rel.X, "len(fld:config.AdminAPIConfig.IPDenyList)") {
+									emptyD = true
+								}
+							}
+						}
+					}
+					if !emptyA || !emptyD {
+						return "the API is served unfiltered without both the allow list and the deny list having been found empty (a deny-only or allow-only configuration is ignored)"
+					}
+				}
 				return ""
 			}
 			if e, _, ok := c.findRel(t, "NewIPFilter(", "", 0, -1); ok && (e.Neq || e.Lo != 0) && strings.Contains(e.X, "#1") {
@@ -605,6 +625,14 @@ func checkC11(c *Ctx) {
 			if hdr == nil {
 				ok, detail = false, "existing backends are not moved in a loop over all of them"
 			} else {
+				// every trip through the loop body passes the add
+				for _, s := range hdr.Succs {
+					if hdr.Dominates(s) && reaches(s, hdr, map[*ssa.BasicBlock]bool{}) && s != addAt.Block() {
+						if reachesAvoiding(s, hdr, addAt.Block(), map[*ssa.BasicBlock]bool{}) {
+							ok, detail = false, "some backends are skipped when the strategy is switched (an iteration of the move loop can return to the loop head without adding the backend)"
+						}
+					}
+				}
 				for _, b := range ss.Blocks {
 					if hdr.Dominates(b) && b != hdr && reaches(b, hdr, map[*ssa.BasicBlock]bool{}) {
 						for _, s := range b.Succs {
